@@ -87,6 +87,21 @@ class Issuer:
         self.reach = cg.reachable_from(self.g, [ISSUE])
         self.fns = [f for f in fx.subjects(sorted(self.reach)) if not f.is_macro_generated()]
         self.disc_new = fx.fn(DISC_NEW)
+        if self.disc_new is None:
+            # the constructor by what it does (builds the SDJWTDisclosure literal), whatever it is called
+            import dtext
+            cands = []
+            for name_, f_ in sorted(fx.fns.items()):
+                if f_.is_macro_generated():
+                    continue
+                for b_ in f_.blocks:
+                    if b_["cleanup"]:
+                        continue
+                    if any(st_["k"] == "assign" and isinstance(st_.get("rv"), dict) and (st_["rv"].get("aggregate") or {}).get("adt") == dtext.STRUCT for st_ in b_["stmts"]):
+                        if f_ not in cands:
+                            cands.append(f_)
+            if len(cands) == 1:
+                self.disc_new = cands[0]
         self.disc_ctors = set(n for n, f in fx.fns.items() if not f.is_macro_generated() and (f.raw.get("ret_ty") or "") == "disclosure::SDJWTDisclosure")
         # object builder: inserts the constant key "_sd" with an Array value built from a local Vec<String>
         self.obj_builder = None
